@@ -259,6 +259,8 @@ def tasks(tier, seed):
             for sh in (False, True):
                 if sh and g.name == 'complete4':
                     continue     # 4! shuffles per node x cost orderings: path explosion; shuffling is covered on the other graphs
+                if sh and tie == 'random' and g.name.startswith('rand'):
+                    continue     # shuffles x random tie-break values on the generated graphs: > 6000 paths; both are covered separately there and jointly on the hand-made graphs
                 kind = kinds[(gi + ti + sh) % len(kinds)] if tier == 'quick' else None
                 for kd in ([kind] if kind else kinds):
                     mf = (g.name == 'diamond' and tie == 'lifo' and not sh)
